@@ -328,7 +328,10 @@ void MEDDLY::pregen_relation::unionLevels()
     apply(UNION, u, events[k], u);
     events[k].set(0);
   }
-  events[u.getLevel()] = u;
+  // The top node can be at a primed level; a terminal (identity or empty)
+  // cannot change any state.
+  const int lv = ABS(u.getLevel());
+  if (lv) events[lv] = u;
 }
 
 
@@ -346,6 +349,19 @@ void MEDDLY::pregen_relation::finalize(splittingOption split)
     }
 #endif
     splitMxd(split);
+    //
+    // Unions and differences can lower the top level of events[k]
+    // (e.g., the events at level k add up to the identity on variable k).
+    // Move such relations to the level they now belong to;
+    // a terminal (the identity, or empty) cannot change any state.
+    //
+    for (unsigned k = K; k; k--) {
+      if (0 == events[k].getNode()) continue;
+      const unsigned lv = unsigned(ABS(events[k].getLevel()));
+      if (lv == k) continue;
+      if (lv) apply(UNION, events[lv], events[k], events[lv]);
+      events[k].set(0);
+    }
     if (split != None && split != MonolithicSplit) {
 #ifdef DEBUG_FINALIZE_SPLIT
       // Union the elements, and then re-run.
